@@ -192,17 +192,7 @@ def unescapeQuoted : Bytes → Bytes
   | [b] => [b]
   | b :: c :: t => if b == 0x5c && c == 0x22 then 0x22 :: unescapeQuoted t else b :: unescapeQuoted (c :: t)
 
-/-- HasRegex: `/…/` with an even number of backslashes before the closing slash -/
-def trailingBackslashes : Bytes → Nat
-  | [] => 0
-  | b :: t => if b == 0x5c then trailingBackslashes t + 1 else 0
-
-def hasRegex (s : Bytes) : Option Bytes :=
-  if s.length < 2 || s.head? != some 0x2f || s.getLast? != some 0x2f then none
-  else if s.length == 2 then some []
-  else
-    let inner := (s.drop 1).dropLast
-    if trailingBackslashes inner.reverse % 2 == 0 then some inner else none
+/- HasRegex (internal/strings/strings.go:137) is `Coraza.hasRegex` in Base/Bytes.lean (shared with the engine model) -/
 
 /-! ## cutQuotedString, parseActionOperator (rule_parser.go:451, :486) -/
 
